@@ -318,6 +318,27 @@ pub fn run(ctx: &'static Ctx) {
             }
         });
     }
+    {
+        let mut items: Vec<(String, Box<dyn Fn() -> String + Sync>)> = Vec::new();
+        let mut cases: Vec<Case> = Vec::new();
+        for mc in [true, false] {
+            let exts = ext_choices(mc);
+            for (flags, count, attested, id, ext) in [(0u8, 0u32, false, 0usize, 0usize), (0xf, 0xffff_ffff, mc, 16, 1), (5, 0x01020304, mc, 560, exts.len() - 1), (9, 1, mc, 700, exts.len() / 2), (1, 0x100, mc, 65536, 0)] {
+                cases.push(Case { mc, flags, count, attested, aaguid: 16, id, pk: 77, ext: exts[ext].clone() });
+            }
+        }
+        for c in cases {
+            items.push((format!("{:?}", c), Box::new(move || {
+                thread_local! { static B: Buffers = Buffers::new(); }
+                B.with(|b| match observed(&c, b) {
+                    Ok(Some(x)) => hex(&x),
+                    Ok(None) => "Err".into(),
+                    Err(p) => format!("PANIC {}", p),
+                })
+            })));
+        }
+        pair_histories(ctx, P, "serialize call pairs", "every ordered pair of 10 authenticator-data cases (fitting, overflowing, with and without extensions) serialised back to back", &items);
+    }
     extension_maps_canonical(ctx, P);
     ctx.require_outcomes(&["fits", "must fail"]);
     ctx.sample(json!({"flavour": "mc", "flags": "UP|AT", "count": "0x01020304", "aaguid": 16, "id": 560, "pk": 77, "ext": "none", "oracle": "rpIdHash||41||01020304||aaguid||0230||id||pk; total 692 > 676 -> Err"}));
